@@ -47,7 +47,7 @@ var runs = map[string][2]int{ // quick, thorough
 	"C04": {1500, 300000},
 	"C05": {1200, 200000},
 	"C06": {3000, 600000},
-	"C07": {40, 3000},
+	"C07": {30, 3000},
 	"C08": {1500, 400000},
 	"C09": {400, 60000},
 	"C10": {160, 8000},
